@@ -322,6 +322,10 @@ def binop(op, a, b):
         hi = max(ahi >> blo, ahi >> bhi)
         return mk_int(zt(a) >> bt, lo, hi)
     if op is operator.floordiv or op is operator.mod:
+        if bhi < 0:
+            # Python floor semantics with a negative divisor: a // b == (-a) // (-b), a % b == -((-a) % (-b))
+            r = binop(op, neg(a), neg(b))
+            return r if op is operator.floordiv else neg(r)
         if is_sym(b):
             if blo <= 0:
                 if blo == 0 and bhi > 0 and G.CUR is not None and not G.CUR[0].feasible(G.CUR[1], zt(b) == bvv(0)):
